@@ -14,6 +14,8 @@ import (
 	sdk "github.com/cosmos/cosmos-sdk/types"
 
 	chain "github.com/comdex-official/comdex/app"
+	auctionsV2types "github.com/comdex-official/comdex/x/auctionsV2/types"
+	lendtypes "github.com/comdex-official/comdex/x/lend/types"
 	"github.com/comdex-official/comdex/x/liquidity"
 	liqtypes "github.com/comdex-official/comdex/x/liquidity/types"
 	lockertypes "github.com/comdex-official/comdex/x/locker/types"
@@ -119,7 +121,7 @@ func c20WorldSwap(t *testing.T, g *rng) *c20Rich {
 		limit(12, p1, true, "2.05", 5*amt, time.Hour)              // crosses the pools
 		limit(13, p1, false, "2.1", amt, 0)                        // expires with the batch
 		limit(14, p1, false, "1.95", 3*amt, time.Hour)             // crosses
-		limit(15, p1, true, "2.1", 400000000+amt, 10*time.Second)  // too large to fill: partially matched
+		limit(15, p1, true, "2.1", 50000000000+amt, 10*time.Second)  // too large to fill: partially matched
 		limit(16, p2, true, "10.1", amt, time.Hour)
 		limit(11, p2, false, "9.9", amt/2+1, time.Hour)
 		exec("market", liqtypes.NewMsgMarketOrder(fx.appL, addrN(12), p1.Id, liqtypes.OrderDirectionBuy, sdk.NewCoin(p1.QuoteCoinDenom, sdk.NewInt(3*amt)), p1.BaseCoinDenom, sdk.NewInt(amt), 0))
@@ -221,4 +223,331 @@ func c20WorldSwap(t *testing.T, g *rng) *c20Rich {
 		tw.end()
 	}
 	return &c20Rich{name: "swap", a: a, ctx: ctx, label: label, cont: cont}
+}
+
+// ---------------------------------------------------------------------------------------------
+// World B "lend": the c09 borrow world (two lend pools, thirteen pairs: same-pool, e-mode, cross-pool
+// bridged through a transit asset, stable-rate) with borrows of every kind, interest pending over a
+// long gap, a closed borrow (a gap in the id space), and one or two borrows liquidated by the
+// generation-2 liquidation - their dutch auctions running, one of them with a partial bid.
+func c20WorldLend(t *testing.T, g *rng) *c20Rich {
+	w := c09bSetup(t)
+	a := w.a
+	c := c09bNewCase(w, c20Scratch(), 0, "rich", 3)
+	var ids []uint64
+	plan := []struct {
+		pair   int
+		stable bool
+	}{{0, false}, {4, false}, {8, false}, {10, false}, {1, true}, {5, false}, {11, false}, {2, false}}
+	for i, p := range plan {
+		amt := int64(1+g.intn(40)) * 10000000
+		if id := c.newBorrow(p.pair, amt, int64(300+g.intn(650)), p.stable); id != 0 {
+			ids = append(ids, id)
+		}
+		if i == 3 {
+			c.skip(int64(3600 * (1 + g.intn(48))))
+		}
+	}
+	if len(ids) < 5 {
+		t.Fatalf("world lend: only %d borrows opened", len(ids))
+	}
+	c.skip(int64(86400 * (1 + g.intn(20)))) // interest accrues, nobody touches the positions
+	c.drawOrRepay(ids[1], false, 200)
+	c.drawOrRepay(ids[2], true, 50)
+	if g.chance(60) {
+		c.closeBorrow(ids[g.intn(2)*(len(ids)-1)]) // the oldest or the newest borrow: a gap / a re-issued id
+	}
+	// liquidation of one or two borrows through the message, at half the collateral price
+	nliq := 1 + g.intn(2)
+	bidder := addrN(1900)
+	var cs sdk.Coins
+	for j := 0; j < 4; j++ {
+		cs = cs.Add(sdk.NewCoin(w.idDenom[w.assets[j]], sdk.NewInt(1000000000000000)))
+	}
+	fund(t, a, c.ctx, bidder, cs)
+	liquidated := 0
+	for _, id := range ids[2:] {
+		if liquidated >= nliq {
+			break
+		}
+		b, found := a.LendKeeper.GetBorrow(c.ctx, id)
+		if !found || b.IsLiquidated {
+			continue
+		}
+		pr, _ := a.LendKeeper.GetLendPair(c.ctx, b.PairID)
+		c.setPrice(pr.AssetIn, w.normal[pr.AssetIn]/2, true)
+		before := a.NewaucKeeper.GetAuctionID(c.ctx)
+		c.liqMsg(1, id)
+		c.setPrice(pr.AssetIn, w.normal[pr.AssetIn], true)
+		if a.NewaucKeeper.GetAuctionID(c.ctx) > before {
+			liquidated++
+		}
+	}
+	aucs := a.NewaucKeeper.GetAuctions(c.ctx)
+	partial := 0
+	if len(aucs) > 0 && g.chance(75) {
+		au := aucs[0]
+		cl, err, _ := execMsg(a, c.ctx, auctionsV2types.NewMsgPlaceMarketBid(bidder.String(), au.AuctionId, sdk.NewCoin(au.DebtToken.Denom, au.DebtToken.Amount.QuoRaw(int64(3+g.intn(3))))))
+		if cl == "ok" {
+			partial = 1
+		} else {
+			c20Debug("lend partial bid: %s %v", cl, err)
+		}
+	}
+	c.skip(int64(6 + g.intn(600)))
+	label := fmt.Sprintf("borrows=%d lends=%d liquidated=%d auctions=%d partial-bid=%d", len(a.LendKeeper.GetAllBorrow(c.ctx)), len(a.LendKeeper.GetAllLend(c.ctx)),
+		liquidated, len(a.NewaucKeeper.GetAuctions(c.ctx)), partial)
+	c20Debug("world lend: %s", label)
+
+	cont := func(tw *c20Twin) {
+		on := func(name string, op func(x *c09bCase)) {
+			tw.step(name, "lend", func(ctx sdk.Context) (sdk.Context, string) {
+				x := *c
+				x.ctx = ctx
+				op(&x)
+				return x.ctx, "ok"
+			})
+		}
+		tw.begin(6*time.Second, "lend", "liquidationsV2", "auctionsV2")
+		on("lend.repay", func(x *c09bCase) { x.drawOrRepay(ids[0], false, 100) })
+		on("lend.draw", func(x *c09bCase) { x.drawOrRepay(ids[3], true, 30) })
+		tw.msg("lend.deposit", "lend", func(ctx sdk.Context) sdk.Msg {
+			id, _ := a.LendKeeper.GetLendIDForAssetIDPoolID(ctx, w.whale.String(), w.assets[1], w.pools[0])
+			return lendtypes.NewMsgDeposit(w.whale.String(), id, sdk.NewCoin(w.idDenom[w.assets[1]], sdk.NewInt(777000000)))
+		})
+		on("lend.new-borrow", func(x *c09bCase) { x.nextUser = 500; x.newBorrow(3, 5000000000, 500, false) })
+		tw.step("lend.ids", "lend", func(ctx sdk.Context) (sdk.Context, string) {
+			return ctx, fmt.Sprintf("ok")
+		})
+		tw.msg("aucv2.bid", "auctionsV2", func(ctx sdk.Context) sdk.Msg {
+			as := a.NewaucKeeper.GetAuctions(ctx)
+			if len(as) == 0 {
+				return auctionsV2types.NewMsgPlaceMarketBid(bidder.String(), 1, sdk.NewCoin("uasset1", sdk.NewInt(1)))
+			}
+			au := as[len(as)-1]
+			return auctionsV2types.NewMsgPlaceMarketBid(bidder.String(), au.AuctionId, sdk.NewCoin(au.DebtToken.Denom, au.DebtToken.Amount.QuoRaw(2)))
+		})
+		on("lend.close", func(x *c09bCase) { x.closeBorrow(ids[1]) })
+		tw.begin(3600*time.Second, "lend", "liquidationsV2", "auctionsV2")
+		tw.msg("lend.interest", "lend", func(ctx sdk.Context) sdk.Msg { return lendtypes.NewMsgCalculateInterestAndRewards(c.owner[ids[3]].String()) })
+		on("lend.price-drop", func(x *c09bCase) { x.setPrice(w.assets[1], w.normal[w.assets[1]]*45/100, true) })
+		tw.begin(6*time.Second, "lend", "liquidationsV2", "auctionsV2") // the sweep finds the borrows the price drop made unsafe
+		tw.begin(4000*time.Second, "lend", "liquidationsV2", "auctionsV2")
+		tw.msg("lend.withdraw", "lend", func(ctx sdk.Context) sdk.Msg {
+			id, _ := a.LendKeeper.GetLendIDForAssetIDPoolID(ctx, w.whale.String(), w.assets[3], w.pools[1])
+			return lendtypes.NewMsgWithdraw(w.whale.String(), id, sdk.NewCoin(w.idDenom[w.assets[3]], sdk.NewInt(1000000)))
+		})
+	}
+	return &c20Rich{name: "lend", a: a, ctx: c.ctx, label: label, cont: cont}
+}
+
+// ---------------------------------------------------------------------------------------------
+// World C "fees": the c13 world (two apps with governance tokens minted through tokenmint, vault pairs,
+// collector lookup tables, lockers earning rewards over time, fee inflows, surplus / debt auctions of
+// both generations, generation-2 liquidations) after a random history, with - at the export - a
+// generation-1 surplus auction carrying a standing bid and a generation-2 english (debt) auction with a
+// standing bid, lockers whose rewards have accrued since they were last touched.
+func c20WorldFees(t *testing.T, g *rng) *c20Rich {
+	a, base := newApp(t)
+	apps, assets, denom, ep := c13Base(t, a, base)
+	w := c13NewWorld(t, a, base, c20Scratch())
+	w.apps, w.assets, w.denom, w.ep = apps, assets, denom, ep
+	w.users = []sdk.AccAddress{addrN(21), addrN(22), addrN(23)}
+	w.vuser = addrN(29)
+	for _, u := range w.users {
+		for _, as := range assets[1:] {
+			fund(t, a, w.ctx, u, sdk.NewCoins(sdk.NewCoin(denom[as], sdk.NewInt(int64(1+g.intn(9))*1000000000))))
+		}
+	}
+	fund(t, a, w.ctx, w.vuser, sdk.NewCoins(sdk.NewCoin(denom[assets[0]], sdk.NewInt(1000000000000000)), sdk.NewCoin(denom[assets[1]], sdk.NewInt(1000000000000)),
+		sdk.NewCoin(denom[assets[2]], sdk.NewInt(1000000000000))))
+	w.c13AucInit()
+	for _, app := range apps {
+		for ai, as := range assets[1:] {
+			w.c13AddLookup(app, as, assets[2-ai], c13Lsr(g), 10000000, 5000000, 2000000, 2000000)
+			w.c13WlLocker(app, as)
+			w.c13WlReward(app, as)
+		}
+	}
+	w.c13InflowOrders(g)
+	for i := 0; i < 2+g.intn(4); i++ {
+		w.c13Create(g.intn(len(w.users)), apps[g.intn(2)], assets[1+g.intn(2)], c13Amount(g))
+	}
+	// a random history.  c13RandomOp also calls keeper functions with arguments no entry point passes
+	// (WasmUpdateCollectorLookupTable for an (app, asset) without a lookup record stores a zero record
+	// under that key): an operation that leaves such a record is rolled back
+	nops := 15 + g.intn(25)
+	for i := 0; i < nops; i++ {
+		saved := w.ctx
+		cctx, write := saved.CacheContext()
+		w.ctx = cctx
+		w.c13RandomOp(g, 3)
+		bad := false
+		for _, lk := range a.CollectorKeeper.GetAllCollectorLookupTable(w.ctx) {
+			if lk.AppId == 0 {
+				bad = true
+			}
+		}
+		h, tm := w.ctx.BlockHeight(), w.ctx.BlockTime()
+		w.ctx = saved
+		if !bad {
+			write()
+			w.ctx = saved.WithBlockHeight(h).WithBlockTime(tm)
+		}
+	}
+	// the awkward end: auctions in mid-life, rewards accrued
+	w.c13SetFlags(apps[0], assets[1], true, false, false)
+	w.c13FeeIn(apps[0], assets[1], sdk.NewInt(13000000+int64(g.intn(1000))))
+	w.c13V1Surplus(apps[0], assets[1])
+	w.c13Bid(g, 0)
+	w.c13SetFlags(apps[1], assets[2], false, true, false)
+	w.c13FeeIn(apps[1], assets[2], sdk.NewInt(int64(1+g.intn(1000))*1000))
+	w.c13V2CheckStats(apps[1], assets[2])
+	w.c13Bid(g, 2)
+	w.c13Advance(int64(10 + g.intn(80)))
+	v1s, v1d := 0, 0
+	for _, app := range apps {
+		v1s += len(a.AuctionKeeper.GetSurplusAuctions(w.ctx, app))
+		v1d += len(a.AuctionKeeper.GetDebtAuctions(w.ctx, app))
+	}
+	label := fmt.Sprintf("ops=%d lockers=%d vaults=%d v1surplus=%d v1debt=%d v2auctions=%d v2bids=%d", nops, len(a.LockerKeeper.GetLockers(w.ctx)), len(a.VaultKeeper.GetVaults(w.ctx)),
+		v1s, v1d, len(a.NewaucKeeper.GetAuctions(w.ctx)), len(a.NewaucKeeper.GetUserBids(w.ctx)))
+	c20Debug("world fees: %s", label)
+
+	cont := func(tw *c20Twin) {
+		on := func(name, mod string, op func(x *c13World, r *rng)) {
+			rs := *g // the same random draws on both chains
+			tw.step(name, mod, func(ctx sdk.Context) (sdk.Context, string) {
+				x := *w
+				x.ctx = ctx
+				r := rs
+				op(&x, &r)
+				return x.ctx, "ok"
+			})
+			g.next()
+		}
+		tw.begin(6*time.Second, "auction", "rewards", "liquidationsV2", "auctionsV2")
+		lk := a.LockerKeeper.GetLockers(w.ctx)
+		if len(lk) > 0 {
+			l := lk[0]
+			on("locker.deposit", "locker", func(x *c13World, r *rng) { x.c13Deposit(x.c13UserIdx(l.Depositor), l.AppId, l.AssetDepositId, l.LockerId, sdk.NewInt(1000000)) })
+			on("locker.withdraw", "locker", func(x *c13World, r *rng) { x.c13Withdraw(x.c13UserIdx(l.Depositor), l.AppId, l.AssetDepositId, l.LockerId, sdk.NewInt(500000)) })
+			on("locker.reward", "locker", func(x *c13World, r *rng) { x.c13RewardCalc(x.c13UserIdx(l.Depositor), l.AppId, l.LockerId) })
+		}
+		on("locker.create", "locker", func(x *c13World, r *rng) { x.c13Create(2, apps[1], assets[1], sdk.NewInt(2000000)) })
+		on("auc.bid-surplus", "auction", func(x *c13World, r *rng) { x.c13Bid(r, 0) })
+		on("aucv2.bid-english", "auctionsV2", func(x *c13World, r *rng) { x.c13Bid(r, 2) })
+		on("collector.fee-in", "collector", func(x *c13World, r *rng) { x.c13FeeIn(apps[0], assets[2], sdk.NewInt(777777)) })
+		on("liqv2.liquidation", "liquidationsV2", func(x *c13World, r *rng) { x.c13V2Liquidation(apps[0], assets[1], 20000000, 1) })
+		on("time", "asset", func(x *c13World, r *rng) { x.c13Advance(400) })
+		on("auc.v1-surplus-close", "auction", func(x *c13World, r *rng) { x.c13V1Surplus(apps[0], assets[1]) })
+		on("aucv2.close", "auctionsV2", func(x *c13World, r *rng) { x.c13V2Close() })
+		tw.begin(6*time.Second, "auction", "rewards", "liquidationsV2", "auctionsV2")
+		for i := 0; i < 8; i++ {
+			on(fmt.Sprintf("random%d", i), "collector", func(x *c13World, r *rng) { x.c13RandomOp(r, 3) })
+		}
+		tw.begin(700*time.Second, "auction", "rewards", "liquidationsV2", "auctionsV2")
+	}
+	return &c20Rich{name: "fees", a: a, ctx: w.ctx, label: label, cont: cont}
+}
+
+// ---------------------------------------------------------------------------------------------
+// World D "esm": the esm-life world (vault products incl. stable-mint ones on one or two apps, governance
+// token deposits) with the emergency shutdown EXECUTED and the chain exported in the middle of the
+// cool-off period: trigger parameters, user deposits, the status record with its end time, the price
+// snapshot, vaults still open.  The continuation runs the cool-off out, the redemption set-up and
+// redemptions.
+func c20WorldEsm(t *testing.T, g *rng) *c20Rich {
+	a, base := newApp(t)
+	ctx, _ := base.CacheContext()
+	vc := &vltCase{t: t, a: a, ctx: ctx, tr: c20Scratch(), r: newRng(g.next()), now: baseTime, height: 1, esmOn: map[uint64]bool{}}
+	c := &esmCase{vltCase: vc}
+	r := c.r
+	c.setupEsm()
+	c.now = c.now.Add(10 * time.Second)
+	c.height = 2
+	c.ctx = c.ctx.WithBlockTime(c.now).WithBlockHeight(c.height)
+	app := c.apps[0]
+	c.createHealthy()
+	na := 6 + r.intn(8)
+	for i := 0; i < na; i++ {
+		switch x := r.intn(100); {
+		case x < 35:
+			c.createHealthy()
+		case x < 60:
+			c.stableOp()
+		case x < 90:
+			c.randomOp()
+		default:
+			c.advance(r.pickI(5, 60, 3600, 86400))
+		}
+	}
+	// a partial deposit of another user (stays on record), then the target is met and the shutdown executed
+	c.depositOp(app, r.intn(len(c.users)), c.govs[app].denom, c.target[app].QuoRaw(int64(3+r.intn(3))))
+	moment := g.intn(3) // 0: target not yet met (deposits pending); 1: executed, before the first begin blocker; 2: snapshot taken, mid cool-off
+	if moment >= 1 {
+		for k := 0; k < 3 && !c.executed[app]; k++ {
+			best := 0
+			for ui := range c.users {
+				if bal(a, c.ctx, c.users[ui], c.govs[app].denom).GT(bal(a, c.ctx, c.users[best], c.govs[app].denom)) {
+					best = ui
+				}
+			}
+			amt := c.target[app]
+			if b := bal(a, c.ctx, c.users[best], c.govs[app].denom); b.LT(amt) {
+				amt = b
+			}
+			c.depositOp(app, best, c.govs[app].denom, amt)
+			c.executeOp(app, r.intn(len(c.users)))
+		}
+	}
+	if moment == 2 {
+		c.beginOp()
+		c.advance(int64(1 + r.intn(30)))
+		c.beginOp()
+	}
+	st, stFound := a.EsmKeeper.GetESMStatus(c.ctx, app)
+	label := fmt.Sprintf("moment=%d apps=%d vaults=%d stable-vaults=%d executed=%v status=%v/%v snapshot=%v", moment, len(c.apps), len(a.VaultKeeper.GetVaults(c.ctx)),
+		len(a.VaultKeeper.GetStableMintVaults(c.ctx)), c.executed[app], stFound, st.Status, st.SnapshotStatus)
+	c20Debug("world esm: %s", label)
+
+	cont := func(tw *c20Twin) {
+		on := func(name string, op func(x *esmCase)) {
+			rs := *c.r
+			tw.step(name, "esm", func(ctx sdk.Context) (sdk.Context, string) {
+				vc2 := *c.vltCase
+				rr := rs
+				vc2.r = &rr
+				vc2.ctx = ctx
+				vc2.now, vc2.height = ctx.BlockTime(), ctx.BlockHeight()
+				x := *c
+				x.vltCase = &vc2
+				op(&x)
+				return vc2.ctx, "ok"
+			})
+			c.r.next()
+		}
+		on("esm.begin", func(x *esmCase) { x.beginOp() })
+		on("esm.deposit", func(x *esmCase) { x.randomDeposit(app) })
+		on("esm.execute", func(x *esmCase) { x.executeOp(app, 0) })
+		on("vault.op", func(x *esmCase) { x.randomOp() })
+		on("esm.begin2", func(x *esmCase) { x.beginOp() })
+		on("time", func(x *esmCase) {
+			dt := int64(3700)
+			if s, found := a.EsmKeeper.GetESMStatus(x.ctx, app); found && x.now.Before(s.EndTime) {
+				dt = int64(s.EndTime.Sub(x.now).Seconds()) + 5
+			}
+			x.advance(dt)
+		})
+		for i := 0; i < 3; i++ {
+			on(fmt.Sprintf("esm.setup%d", i), func(x *esmCase) { x.beginOp() })
+		}
+		for i := 0; i < 4; i++ {
+			on(fmt.Sprintf("esm.redeem%d", i), func(x *esmCase) { x.redeemOp(app) })
+		}
+		tw.begin(6*time.Second, "auction", "rewards", "esm", "liquidationsV2", "auctionsV2")
+		on("vault.op2", func(x *esmCase) { x.randomOp() })
+		on("esm.redeem-last", func(x *esmCase) { x.redeemOp(app) })
+	}
+	return &c20Rich{name: "esm", a: a, ctx: c.ctx, label: label, cont: cont}
 }
